@@ -371,8 +371,38 @@ for _p, (_old, _new) in CLAIM_UPDATES.items():
     PROPERTIES[_p]["claim"] = PROPERTIES[_p]["claim"].replace(_old, _new)
 
 
+def _native_twins(prop):
+    """Every symbolic obligation of engines N / A that carries a native evaluation of the same contract (used as its replay) also gets a BOUNDED
+    twin that runs that evaluation on every run: the symbolic proof takes the object's tables (|G|^2, masks, volume, real potentials ...) by state
+    contract, the twin evaluates the contract on real objects built by the tree under check."""
+    import json
+    import pathlib
+
+    known = set()
+    try:
+        kf = json.loads((pathlib.Path(__file__).resolve().parent.parent / "KNOWN_FINDINGS.json").read_text())
+        known = {f["obligation"] for f in kf.get("findings", []) if f.get("status") == "open"}
+    except Exception:  # noqa: BLE001
+        pass
+    for ob in list(fw.REGISTRY.values()):
+        run = ob.run
+        nat = getattr(run, "nat", None)
+        if ob.prop != prop or ob.canary or ob.bounded or nat is None or type(run).__name__ != "NOb" or ob.name in known:
+            continue
+        name = ob.name + ".native_instance"
+        if name in fw.REGISTRY:
+            continue
+        from contracts.c04_c05_c01_c11 import BoundedNative
+
+        fw.register(fw.Obligation(name=name, prop=prop, engine="B", bounded=True, functions=list(ob.functions),
+                                  run=BoundedNative(nat, 1, tol=1e-8, what=f"native evaluation of the contract of {ob.name}"), budget={"quick": 300, "thorough": 600},
+                                  doc=f"BOUNDED twin of {ob.name}: the same contract evaluated natively on real objects (triclinic cell, two k-points, both spin treatments)"))
+
+
 def load(prop):
     spec = PROPERTIES[prop]
     for m in spec["modules"]:
         importlib.import_module(m)
+    if any(m in ("contracts.c03", "contracts.c04_c05_c01_c11", "contracts.c16") for m in spec["modules"]):
+        _native_twins(prop)
     return [ob for ob in fw.REGISTRY.values() if ob.prop == prop]
